@@ -93,6 +93,8 @@ def main():
             add(["a", "b", "c"], assets3, [1, 2, 3], w, report)
             add(["c", "zz", "a"], {"a": base, "c": assets3["c"]}, [2, 5], w, report, old=3)
             add(["a"], {"a": base}, [4], w, report, old=5)
+            # an asset the repository holds, but with nothing inside the look-back window: it still gets its results
+            add(["a", "stale", "c"], {"a": base, "stale": [], "c": assets3["c"]}, [1, 3], w, report, old=4)
     # comparator witnesses (and a few seeded close arrangements) through the HTML report
     arr = [w_ for w_ in wits][:12] + [[0, 6, 12], [12, 6, 0], [6, 0, 12], [0, 0, 6], [30, 6, 12], [0, 6, 0], [6, 12, 0]]
     if tier == "thorough":
